@@ -271,4 +271,82 @@ def Aborts (f : Fn) : Bool :=
 
 def Guarded (f : Fn) : Bool := WF f && !EmptyDecl f && !PrefixAmbiguous f
 
+/-! ## loader: which comment of the function body is the declaration
+
+`parseExampleOutputComment` walks the comment groups that lie inside the function body, in source
+order, and inside each group the comments in order; the first comment whose text is exactly
+`// Output:` or `// Output(panic):` is the marker, and the `//` comments that follow it *in the same
+group* (up to the first comment that is not a `//` comment) are the expected text, each trimmed.
+A group is a maximal run of comments with no blank line and no other token between them, so the
+marker need not be the first line of its group (an ordinary `//` line, a `/* */` comment or the
+trailing comment of the previous statement may precede it).  Whether the scan looks at every
+comment of a group or only at the first one is regenerated from the source (`markerAnywhere`). -/
+
+inductive Comment
+  | line (t : Text)     -- `//t`
+  | block (t : Text)    -- `/*t*/`
+  deriving DecidableEq, Repr
+
+abbrev Group := List Comment
+
+def markerOut : Text := [' ', 'O', 'u', 't', 'p', 'u', 't', ':']
+def markerPanic : Text := [' ', 'O', 'u', 't', 'p', 'u', 't', '(', 'p', 'a', 'n', 'i', 'c', ')', ':']
+
+def isSpaceChar (c : Char) : Bool := c = ' ' || c = '\t' || c = '\n' || c = '\r'
+
+/-- `strings.TrimSpace` -/
+def trimText (t : Text) : Text := ((t.dropWhile isSpaceChar).reverse.dropWhile isSpaceChar).reverse
+
+/-- the `//` comments that directly follow the marker in its group, trimmed -/
+def collectLines : List Comment → List Text
+  | .line t :: rest => trimText t :: collectLines rest
+  | _ => []
+
+def joinLines : List Text → Text
+  | [] => []
+  | [t] => t
+  | t :: rest => t ++ ('\n' :: joinLines rest)
+
+def markerDecl (t : Text) (rest : List Comment) : Option Decl :=
+  if t = markerOut then some (.output (joinLines (collectLines rest)))
+  else if t = markerPanic then some (.panic (joinLines (collectLines rest)))
+  else none
+
+/-- scan every comment of the group -/
+def scanWhole : List Comment → Option Decl
+  | [] => none
+  | .line t :: rest => match markerDecl t rest with
+    | some d => some d
+    | none => scanWhole rest
+  | .block _ :: rest => scanWhole rest
+
+/-- look only at the first comment of the group (`range commentGroup.List[:1]`) -/
+def scanHead : List Comment → Option Decl
+  | .line t :: rest => markerDecl t rest
+  | _ => none
+
+def loaderDecl (markerAnywhere : Bool) : List Group → Decl
+  | [] => .none
+  | g :: gs => match (if markerAnywhere then scanWhole g else scanHead g) with
+    | some d => d
+    | none => loaderDecl markerAnywhere gs
+
+/-- the declaration as written: the first marker comment of the body, wherever it sits in its group -/
+def declSpec (gs : List Group) : Decl := loaderDecl true gs
+
+/-- a function as written, with the comments of its body (`base.decl` is not used) -/
+structure SrcFn where
+  base : SFn
+  comments : List Group
+  deriving DecidableEq, Repr
+
+def lower (markerAnywhere : Bool) (s : SrcFn) : SFn := { s.base with decl := loaderDecl markerAnywhere s.comments }
+
+/-- `wa test` on the package as written -/
+def runSrc (cfg : Cfg) (markerAnywhere : Bool) (pkg : Pkg) (l : List SrcFn) : List Line × Nat :=
+  run cfg (.fns pkg (l.map (lower markerAnywhere)))
+
+/-- the functions with the declarations as written and the behaviour each shows when it runs -/
+def contractFns (pkg : Pkg) (l : List SrcFn) : List Fn := resolved pkg (l.map (lower true))
+
 end WaVerif.C30
